@@ -17,7 +17,8 @@ RULE = (
     "shift/diff for window 1..3; datetime alphabet {NaT,t+5,t+1} for length <= 5/6.  Sampled through GroupBy: n <= 30, "
     "1-2 keys with nulls, any interleaving, window 1..6, min_periods None/1..window, boolean masks, dtypes float32/64, "
     "ints, datetime64[ns/s] and timedelta64 with values above 2^53 / nanosecond digits, both index_by_groups "
-    "settings.  Non-trivial = some group sees more than `window` selected rows with a null inside a window while "
+    "settings.  `bigwindow`: windows 32766..70000 (around 2^15 and 2^16) over 1-2 interleaved groups slightly longer than "
+    "the window, nulls every 97th/1013th row, vs prefix-sum / monotonic-deque references.  Non-trivial = some group sees more than `window` selected rows with a null inside a window while "
     "another group is interleaved (buffer wrap + eviction of a null).  Distinct by construction / case hash."
 )
 ORACLE = ("sliding-window model: window = last `window` selected rows of the group (nulls occupy slots), null unless the "
@@ -270,7 +271,79 @@ def check(case, ctx):
             raise Violation(f"by-groups:index:{op}", f"{idx[:6]} != {want_idx[:6]}")
 
 
+# ---------------------------------------------------------------------------
+# real-scale windows: buffer bookkeeping beyond the 16-bit range
+@st.composite
+def big_case(draw, variant):
+    w = draw(st.sampled_from([32766, 32767, 32768, 32769, 40000, 65535, 65536, 65537, 70000]))
+    return {"window": w, "extra": draw(st.integers(1, 3000)), "groups": draw(st.sampled_from([1, 2])), "block": draw(st.sampled_from([1, 7, 1000])),
+            "null_every": draw(st.sampled_from([0, 97, 1013])), "op": draw(st.sampled_from(["sum", "mean", "min", "max", "shift", "diff"])),
+            "min_periods": draw(st.sampled_from(["none", "one", "half"])), "mul": draw(st.sampled_from([7919, 104729]))}
+
+
+def big_check(case, ctx):
+    from collections import deque
+
+    from groupby_lib import GroupBy
+
+    w, g, op = case["window"], case["groups"], case["op"]
+    per = w + case["extra"]
+    n = per * g
+    keys = (np.arange(n) // case["block"]) % g if g > 1 else np.zeros(n, dtype=np.int64)
+    vals = ((np.arange(n, dtype=np.int64) * case["mul"]) % 1009 - 504).astype("float64")
+    if case["null_every"]:
+        vals[::case["null_every"]] = np.nan
+    mp = {"none": None, "one": 1, "half": w // 2}[case["min_periods"]]
+    ctx.seen("bigwindow", case, w >= 32768, [f"big:op:{op}", f"big:window>=2^15:{w >= 32768}", f"big:window>=2^16:{w >= 65536}", f"big:groups:{g}"])
+    gb = GroupBy(keys)
+    if op in ("shift", "diff"):
+        got = np.asarray(getattr(gb, op)(vals, window=w), dtype="float64")
+    else:
+        got = np.asarray(getattr(gb, "rolling_" + op)(vals, window=w, min_periods=mp), dtype="float64")
+    if len(got) != n:
+        raise Violation(f"big:length:{op}", f"{len(got)} rows for {n}")
+    exp = np.full(n, np.nan)
+    need = w if mp is None else mp
+    for lab in range(g):
+        rows = np.flatnonzero(keys == lab)
+        x = vals[rows]
+        m = len(x)
+        ok = ~np.isnan(x)
+        if op in ("shift", "diff"):
+            e = np.full(m, np.nan)
+            e[w:] = x[:-w] if op == "shift" else x[w:] - x[:-w]
+        else:
+            cnt = np.concatenate([[0], np.cumsum(ok)])
+            lo = np.maximum(0, np.arange(1, m + 1) - w)
+            c = cnt[1:] - cnt[lo]
+            if op in ("sum", "mean"):
+                cs = np.concatenate([[0.0], np.cumsum(np.where(ok, x, 0.0))])  # small integers: exact
+                tot = cs[1:] - cs[lo]
+                e = tot if op == "sum" else np.where(c > 0, tot / np.maximum(c, 1), np.nan)
+            else:
+                # monotonic deque, the textbook sliding extremum
+                e = np.full(m, np.nan)
+                dq = deque()
+                better = (lambda a, b: a >= b) if op == "max" else (lambda a, b: a <= b)
+                for i in range(m):
+                    if ok[i]:
+                        while dq and better(x[i], x[dq[-1]]):
+                            dq.pop()
+                        dq.append(i)
+                    while dq and dq[0] <= i - w:
+                        dq.popleft()
+                    if dq:
+                        e[i] = x[dq[0]]
+            e = np.where(c >= need, e, np.nan)
+        exp[rows] = e
+    bad = np.flatnonzero(~((got == exp) | (np.isnan(got) & np.isnan(exp)) | (np.abs(got - exp) <= 1e-12 * np.maximum(1.0, np.abs(exp)))))
+    if len(bad):
+        i = int(bad[0])
+        raise Violation(f"big:{op}", f"window {w}, {g} group(s): {len(bad)} of {n} rows differ, first at row {i}: expected {exp[i]!r} got {got[i]!r}")
+
+
 SUBS = [
+    Sub("bigwindow", big_check, strategy=lambda tier, v: big_case(v), variants=("-",), examples=(64, 1200), replicas=(4, 8), cost={"-": 120}),
     Sub("enum", enum_check, enumerate=enum_cases, variants=("float", "datetime"), replicas=(8, 16),
         cost={"float": 600, "datetime": 150}),
     Sub("gb", check, strategy=lambda tier, v: case_strategy(v), variants=tuple(VARIANTS), examples=(4500, 90000),
